@@ -10,7 +10,9 @@ Local Open Scope string_scope.
 
 (** ** ANY receiver [b] whose declared variables are among the file's: any
     initial variable order, any setting of dynamic reordering.  Hypotheses:
-    consistent manager with exact counts for a ledger [L] that holds the node
+    consistent manager without a bound on the number of nodes
+    ([max_nodes = None], the default: with a bound, [swap] and [find_or_add]
+    can raise [RuntimeError]) with exact counts for a ledger [L] that holds the node
     of every live handle and every node listed in the manager's [roots]
     attribute (it is [[]] for managers created through autoref), empty oracle
     tape (the state between two operations of the driver).
@@ -23,7 +25,7 @@ Local Open Scope string_scope.
 Theorem C12_json_roundtrip_order_any s roots vorder jf sd b L :
   Inv s → Forall (valid s) (roots_values roots) →
   dump_json roots vorder s = (Ok jf, sd) →
-  Inv (mgr b) → Counts (mgr b) L → tape (mgr b) = [] →
+  Inv (mgr b) → max_nodes (mgr b) = None → Counts (mgr b) L → tape (mgr b) = [] →
   (∀ h u, handles b !! h = Some u → held L u) →
   (∀ u, u ∈ Base.roots (mgr b) → held L u) →
   (∀ v, is_Some (vars (mgr b) !! v) → is_Some (vars s !! v)) →
@@ -50,7 +52,7 @@ Print Assumptions C12_json_roundtrip_order_any.
 Theorem C12_json_load_order_any s roots vorder jf r0 H n L :
   Inv s → json_file s roots vorder jf → roots ≠ RNone →
   Forall (valid s) (roots_values roots) →
-  Inv r0 → Counts r0 L → tape r0 = [] →
+  Inv r0 → max_nodes r0 = None → Counts r0 L → tape r0 = [] →
   (∀ u, u ∈ Base.roots r0 → held L u) →
   (∀ v, is_Some (vars r0 !! v) → is_Some (vars s !! v)) →
   ∃ r3 us,
